@@ -8,6 +8,17 @@ from rules.g_alt import as_pure_lit
 from rules.g_cover import entries_of, reachable
 
 
+def trivia_fn(g):
+    """role: the parser that `ws` applies repeatedly after a token (operand of many0 in ws())"""
+    wsf = g.fns.get('ws')
+    role = None
+    if wsf is not None and wsf.ir is not None:
+        for node in grammar.iter_ir(wsf.ir):
+            if node['op'] == 'many0' and node['p'].get('op') == 'ref':
+                role = node['p']['name']
+    return role
+
+
 def lexeme_fn(f):
     return bool(getattr(f, 'lexeme', False))
 
